@@ -195,45 +195,74 @@ def run(ctx):
         body = M.Body(inst)
         from .. import terms as T
         tb = T.TB(F, body)
-        selfv = deref(arg(1)) if fname == "get" else deref(arg(1))
-        # the per-arm temporaries: classify every local that is assigned in exactly two switch arms
-        got = {}
-        it_term = None
-        for L, defs in tb.defs.items():
-            if len(defs) != 2 or L == 0 and fname == "string_table":
-                continue
-            r = c20.classify_local(F, body, tb, L, U32, total=False)
-            if r is None:
-                continue
-            it_term, pcs = r
-            for (iv, val, bb) in pcs:
-                got[CL.fmt(iv)] = N(val)
-        # diverging rest
-        try:
-            _, pieces, _ = CL.classify(F, inst, domain=U32)
-            rest = [iv for (iv, v, bb) in pieces if v[0] == "diverge"]
-        except CL.Unrecognised as e:
-            rest = []
+        # the decision is read off as an interval table of the returned value over entry_size (CLASSIFY: `match`, if / else-if
+        # chains, early returns and a choice joined before the return all give the same table)
         es_s = fld(deref(arg(1)), sf["entry_size"]["i"])
         pfield = fld(deref(arg(1)), sf[ptr_field]["i"])
-        ok_in = it_term is not None and N(it_term) == es_s
+        it_term = None
+        arms, raw_arms = {}, {}
+        rest = []
+        try:
+            it_, pieces, _ = CL.classify(F, inst, domain=U32, target=0, expand=True)
+            it_term = it_ if N(it_) == es_s else None
+            raw_arms = {CL.fmt(iv): v for (iv, v, bb) in pieces if v[0] != "diverge"}
+            arms = {k_: N(v) for k_, v in raw_arms.items()}
+            rest = [iv for (iv, v, bb) in pieces if v[0] == "diverge"]
+            if len(rest) > 1:
+                u = ()
+                for r_ in rest:
+                    u = CL.union(u, r_)
+                rest = [u]
+        except CL.Unrecognised as e:
+            arms = {"UNRECOGNISED": ("opq", str(e))}
+        ok_in = it_term is not None
         want_rest = CL.minus(U32, ((40, 40), (64, 64)))
         ok_rest = len(rest) == 1 and rest[0] == want_rest
-        arms = {}
-        for k, v in got.items():
-            arms[k] = v
-        def arm_ok(v, ty, a):
-            # get: &*(inner as *const Ty)  -> ref(deref(ptr)) == ptr ; string_table: (*(ptr as *const Ty)).addr as usize
+        tys = {}
+        shapes = {}
+
+        def arm_ok(key, ty, a):
+            # get: &*(inner as *const Ty) as &dyn ElfSectionInner: the unsizing coercion names the type the pointer is read as;
+            # string_table: the address is computed from (*(ptr as *const Ty)).addr: the field projection (index, type) names it,
+            # and nothing else in the returned expression may differ between the two arms
+            v = arms[key]
             if fname == "get":
-                while v[0] == "unsize":     # &T -> &dyn ElfSectionInner (possibly coerced twice)
-                    v = v[1]
-                return v in (pfield, ("ref", ("deref", pfield)))
-            addr_i = [f["i"] for f in a["fields"] if f["name"] == "addr"][0]
-            return v == fld(deref(pfield), addr_i) or v == ("cast", "IntToInt", fld(deref(pfield), addr_i), "usize")
-        # pointee types per arm come from the cast target types in the MIR statements
-        tys = arm_pointee_types(body)
-        ok40 = "40" in arms and arm_ok(arms["40"], I32, i32) and tys.get(40) == I32
-        ok64 = "64" in arms and arm_ok(arms["64"], I64, i64) and tys.get(64) == I64
+                src_ty = None
+                for _ in range(6):
+                    if v[0] == "unsize":     # &T -> &dyn ElfSectionInner (possibly coerced twice)
+                        src_ty = v[3] if len(v) > 3 and str(v[3]).startswith("&") and "dyn " not in str(v[3]) else src_ty
+                        v = v[1]
+                    elif v[0] == "ref" and v[1][0] == "deref":
+                        v = v[1][1]
+                    else:
+                        break
+                if src_ty:
+                    tys[key] = src_ty[1:].strip()
+                return v == pfield and tys.get(key) == ty
+            af = [f for f in a["fields"] if f["name"] == "addr"][0]
+            reads = {x for x in CL._subterms(raw_arms[key]) if isinstance(x, tuple) and len(x) > 4 and x[0] == "fld" and N(x[1]) == ("deref", pfield)}
+            if len(reads) != 1:
+                return False
+            rd = next(iter(reads))
+            if rd[2] == af["i"] and rd[4] == af["ty"]:
+                tys[key] = ty
+            shapes[key] = N(CL._replace(raw_arms[key], rd, ("opq", "the addr field")))
+            while shapes[key][0] == "cast" and shapes[key][1] == "IntToInt" or shapes[key][0] == "zext":
+                break
+            return tys.get(key) == ty
+        ok40 = "40" in arms and arm_ok("40", I32, i32)
+        ok64 = "64" in arms and arm_ok("64", I64, i64)
+        if fname == "string_table" and ok40 and ok64:
+            # same expression around the field read (a widening of the 32-bit field is the only difference allowed)
+            def unwiden(t_):
+                if isinstance(t_, tuple):
+                    if t_ and t_[0] == "zext" and t_[1] == ("opq", "the addr field"):
+                        return t_[1]
+                    if t_ and t_[0] == "cast" and t_[1] == "IntToInt" and t_[2] == ("opq", "the addr field") and t_[3] == "usize":
+                        return t_[2]
+                    return tuple(unwiden(x) if isinstance(x, tuple) else x for x in t_)
+                return t_
+            ok40 = unwiden(shapes["40"]) == unwiden(shapes["64"])
         ctx.check(ok_in and ok_rest and ok40 and ok64, "E3", fname,
                   "%s(): entry_size 40 -> the pointer is read as the 40-byte ELF32 header, 64 -> as the 64-byte ELF64 header, every other size diverges (panic)" % fname,
                   inst.get("span", ""), how="arms %s; pointee types %s; rest diverges" % (sorted(arms), tys),
